@@ -27,10 +27,11 @@ pub open spec fn roots_disjoint(ra: PathV, rb: PathV) -> bool { forall|x: PathV,
     // C08/C02: whatever happens (success, failure, a crash between any two steps) no non-staging path other than `dst`
     // changes, and `dst` changes only by the final rename of a FLUSHED staging file
     same_live(final(w).files, old(w).files, set![pv(dst)]),
-    r is Ok ==> old(w).files.contains_key(pv(src)) && final(w).files.contains_key(pv(dst))
-        && final(w).files[pv(dst)].bytes == old(w).files[pv(src)].bytes && final(w).files[pv(dst)].synced,
+    r is Ok ==> old(w).files.contains_key(pv(src)) && final(w).files.contains_key(pv(dst)) && final(w).files[pv(dst)].bytes == old(w).files[pv(src)].bytes,
+    r is Ok ==> final(w).files.contains_key(pv(dst)) && final(w).files[pv(dst)].synced,     // C08: what is published was flushed first
     r is Err ==> same_live(final(w).files, old(w).files, Set::empty()),
     log_extends(final(w).log, old(w).log), no_unlink_since(final(w).log, old(w).log.len() as int),
+    forall|i: int| old(w).log.len() <= i < final(w).log.len() && (#[trigger] final(w).log[i]) is Rename ==> final(w).log[i]->Rename_1 == pv(dst),
     (old(w).reliable && old(w).files.contains_key(pv(src))) ==> r is Ok,
 //@replace /std::fs::create_dir_all\(p\)/ => vfs_create_dir_all(p, Tracked(w))
 //@replace /std::fs::copy\(src, &tmp\)/ => vfs_copy(src, &tmp, Tracked(w))
@@ -131,6 +132,22 @@ pub open spec fn conflict_done(n: Map<PathV, FileS>, o: Map<PathV, FileS>, am: M
             n.contains_key(joinv(ra, ln)) && n[joinv(ra, ln)].bytes == lbytes
             && n.contains_key(joinv(rb, ln)) && n[joinv(rb, ln)].bytes == lbytes)
 }
+// side condition of "no version is lost" for one action (C02): what the scan saw at rel is still on disk on both
+// sides, and (H7) a divergent edit writes its conflict-copies over nothing or over the very bytes being preserved
+pub open spec fn apply_pre(w: World, am: Map<PathBuf, Fingerprint>, bm: Map<PathBuf, Fingerprint>, ra: PathV, rb: PathV, rel: PathV, act: Action, host: Seq<char>) -> bool {
+    &&& scanned_at(w, ra, am, rel)
+    &&& scanned_at(w, rb, bm, rel)
+    &&& conflict_names_free(w, am, bm, ra, rb, rel, act, host)
+}
+pub open spec fn conflict_names_free(w: World, am: Map<PathBuf, Fingerprint>, bm: Map<PathBuf, Fingerprint>, ra: PathV, rb: PathV, rel: PathV, act: Action, host: Seq<char>) -> bool {
+    (act == Action::Conflict(ConflictKind::BothChanged) && mget(am, rel) is Some && mget(bm, rel) is Some) ==> ({
+        let lbytes = if a_wins(am, bm, rel) { w.files[joinv(rb, rel)].bytes } else { w.files[joinv(ra, rel)].bytes };
+        let ln = ln_of(am, bm, rel, host);
+        &&& (w.files.contains_key(joinv(ra, ln)) ==> w.files[joinv(ra, ln)].bytes == lbytes)
+        &&& (w.files.contains_key(joinv(rb, ln)) ==> w.files[joinv(rb, ln)].bytes == lbytes)
+    })
+}
+pub open spec fn under(root: PathV, p: PathV) -> bool { exists|x: PathV| p == #[trigger] joinv(root, x) }
 pub proof fn lemma_insert_view<V>(c0: Map<PathBuf, V>, c1: Map<PathBuf, V>, relv: PathV, v: V)
     requires exists|k: PathBuf| pbv(&k) == relv && c1 == c0.insert(k, v)
     ensures forall|p: PathV| #[trigger] mget(c1, p) == (if p == relv { Some(v) } else { mget(c0, p) })
@@ -144,19 +161,7 @@ pub proof fn lemma_insert_view<V>(c0: Map<PathBuf, V>, c1: Map<PathBuf, V>, relv
 //@param+
     Tracked(w): Tracked<&mut World>
 //@requires
-    scanned_at(*old(w), pv(root_a), a@, pv(rel)),
-    scanned_at(*old(w), pv(root_b), b@, pv(rel)),
     roots_disjoint(pv(root_a), pv(root_b)),
-    // C02 / H7: a divergent edit may only write its conflict-copies over nothing, or over the very bytes being preserved
-    (act == Action::Conflict(ConflictKind::BothChanged) && mget(a@, pv(rel)) is Some && mget(b@, pv(rel)) is Some) ==> ({
-        let fa = mget(a@, pv(rel))->Some_0; let fb = mget(b@, pv(rel))->Some_0;
-        let a_wins = lex_ge(fa.blake3@, fb.blake3@);
-        let loser = if a_wins { fb } else { fa };
-        let lbytes = if a_wins { old(w).files[joinv(pv(root_b), pv(rel))].bytes } else { old(w).files[joinv(pv(root_a), pv(rel))].bytes };
-        let ln = ln_of(a@, b@, pv(rel), host@);
-        &&& (old(w).files.contains_key(joinv(pv(root_a), ln)) ==> old(w).files[joinv(pv(root_a), ln)].bytes == lbytes)
-        &&& (old(w).files.contains_key(joinv(pv(root_b), ln)) ==> old(w).files[joinv(pv(root_b), ln)].bytes == lbytes)
-    }),
 //@ensures
     final(w).reliable == old(w).reliable,
     log_extends(final(w).log, old(w).log),
@@ -167,7 +172,8 @@ pub proof fn lemma_insert_view<V>(c0: Map<PathBuf, V>, c1: Map<PathBuf, V>, relv
     // frame (C02, C08): whether it succeeds, fails or is cut short, only the action's own paths may change
     same_live(final(w).files, old(w).files, touched(act, pv(root_a), pv(root_b), pv(rel), ln_of(a@, b@, pv(rel), host@))),
     // what success means, per action (paths outside the reserved staging names)
-    (r is Ok && !is_staging(joinv(pv(root_a), pv(rel))) && !is_staging(joinv(pv(root_b), pv(rel)))) ==> ({
+    (r is Ok && scanned_at(*old(w), pv(root_a), a@, pv(rel)) && scanned_at(*old(w), pv(root_b), b@, pv(rel))
+        && !is_staging(joinv(pv(root_a), pv(rel))) && !is_staging(joinv(pv(root_b), pv(rel)))) ==> ({
         let pa = joinv(pv(root_a), pv(rel)); let pb = joinv(pv(root_b), pv(rel));
         let o = old(w).files; let n = final(w).files;
         match act {
@@ -182,6 +188,26 @@ pub proof fn lemma_insert_view<V>(c0: Map<PathBuf, V>, c1: Map<PathBuf, V>, relv
             _ => true,
         }
     }),
+    // C08: every rename lands inside one of the two trees (never on the archive)
+    forall|i: int| old(w).log.len() <= i < final(w).log.len() && (#[trigger] final(w).log[i]) is Rename ==>
+        under(pv(root_a), final(w).log[i]->Rename_1) || under(pv(root_b), final(w).log[i]->Rename_1),
+    // C06: what is recorded for the path is the fingerprint of the version now on both sides
+    r is Ok ==> (match act {
+        Action::Noop => final(common)@ == old(common)@,
+        Action::ConvergeIdentical => mget(a@, pv(rel)) is Some ==> mget(final(common)@, pv(rel)) == mget(a@, pv(rel)),
+        Action::PropagateAtoB => mget(a@, pv(rel)) is Some ==> mget(final(common)@, pv(rel)) == mget(a@, pv(rel)),
+        Action::PropagateBtoA => mget(b@, pv(rel)) is Some ==> mget(final(common)@, pv(rel)) == mget(b@, pv(rel)),
+        Action::DeleteA => mget(final(common)@, pv(rel)) is None,
+        Action::DeleteB => mget(final(common)@, pv(rel)) is None,
+        Action::Conflict(ConflictKind::DeleteVsModify) => (mget(a@, pv(rel)) is Some ==> mget(final(common)@, pv(rel)) == mget(a@, pv(rel)))
+            && (mget(a@, pv(rel)) is None && mget(b@, pv(rel)) is Some ==> mget(final(common)@, pv(rel)) == mget(b@, pv(rel))),
+        Action::Conflict(ConflictKind::BothChanged) => (mget(a@, pv(rel)) is Some && mget(b@, pv(rel)) is Some) ==>
+            mget(final(common)@, ln_of(a@, b@, pv(rel), host@)) == Some(loser_of(a@, b@, pv(rel)))
+            && mget(final(common)@, pv(rel)) == Some(if a_wins(a@, b@, pv(rel)) { mget(a@, pv(rel))->Some_0 } else { mget(b@, pv(rel))->Some_0 }),
+    }),
+    // and nothing else in the record changes
+    forall|p: PathV| p != pv(rel) && !(act == Action::Conflict(ConflictKind::BothChanged) && p == ln_of(a@, b@, pv(rel), host@))
+        ==> #[trigger] mget(final(common)@, p) == mget(old(common)@, p),
     // the recorded common state only ever gains the path itself (from a side that has it) or the conflict-copy name (C06 / H6)
     forall|p: PathV| (#[trigger] mget(final(common)@, p)) is Some ==> mget(old(common)@, p) is Some
         || (p == pv(rel) && (mget(a@, pv(rel)) is Some || mget(b@, pv(rel)) is Some))
@@ -289,8 +315,255 @@ pub proof fn lemma_insert_view<V>(c0: Map<PathBuf, V>, c1: Map<PathBuf, V>, relv
                     assert(conflict_done(w4.files, w0.files, a@, b@, pv(root_a), pv(root_b), pv(rel), host@));
                 }
             }
+//@at after /common\.insert\(rel\.to_path_buf\(\), \*win_fp\);/
+            let ghost c5 = common@;
+            proof { lemma_insert_view(c00, c5, pv(rel), *win_fp); }
+//@at after /common\.insert\(loser_name, \*lose_fp\);/
+            proof {
+                lemma_insert_view(c5, common@, lnv, *lose_fp);
+                assert(lnv != pv(rel));
+                assert(*lose_fp == loser_of(a@, b@, pv(rel)));
+            }
 //@at before /common\.insert\(rel\.to_path_buf\(\), \*fp\);/ #all
                 let ghost c0 = common@;
 //@at after /common\.insert\(rel\.to_path_buf\(\), \*fp\);/ #all
                 proof { lemma_insert_view(c0, common@, pv(rel), *fp); }
+//@end
+
+// ---- run_bisync ----
+//@include table_spec.rs
+pub struct VErr { _p: () }      // R11: Box<dyn std::error::Error> => opaque error channel
+impl From<String> for VErr { #[verifier::external_body] fn from(e: String) -> Self { VErr { _p: () } } }
+impl From<std::io::Error> for VErr { #[verifier::external_body] fn from(e: std::io::Error) -> Self { VErr { _p: () } } }
+
+// the scan (meta.rs discover_local_fingerprints: directory walk + streaming BLAKE3) by contract (A): it reports, for every
+// relative path, the fingerprint of the file there or its absence, and changes nothing
+pub open spec fn scanned_all(w: World, root: PathV, m: Map<PathBuf, Fingerprint>) -> bool { forall|rel: PathV| #[trigger] scanned_at(w, root, m, rel) }
+#[verifier::external_body]
+pub fn discover_local_fingerprints(root: &Path, Tracked(w): Tracked<&World>) -> (r: std::result::Result<FpMap, VErr>)
+    ensures r is Ok ==> scanned_all(*w, pv(root), r->Ok_0@)
+{ unimplemented!() }
+pub uninterp spec fn pair_id(ra: PathV, rb: PathV) -> Seq<char>;
+pub uninterp spec fn archive_pathv(pair: Seq<char>) -> PathV;        // ~/.copia/archive/<pair>.json
+#[verifier::external_body]
+pub fn root_pair_hash(a: &Path, b: &Path) -> (r: String) ensures r@ == pair_id(pv(a), pv(b)) { unimplemented!() }
+#[verifier::external_body]
+pub fn archive_path(pair_hash: &str) -> (r: PathBuf) ensures pbv(&r) == archive_pathv(pair_hash@) { unimplemented!() }
+#[verifier::external_body]
+fn host_id() -> (r: String) { unimplemented!() }
+// whole-tree reconcile: PROVED in unit `reconcile` (same table text, included from lib/table_spec.rs); restated here over
+// byte views of the keys (getv(m, p) == mget(m, pbv(&p)) because PathBuf equality is equality of the byte view)
+#[verifier::external_body]
+pub fn reconcile(a: &FpMap, b: &FpMap, base: &FpMap, trust_base: bool) -> (out: Vec<(PathBuf, Action)>)
+    ensures
+        forall|i: int| 0 <= i < out@.len() ==> ({
+            let (p, act) = #[trigger] out@[i];
+            &&& (mget(a@, pbv(&p)) is Some || mget(b@, pbv(&p)) is Some)
+            &&& act == table(mget(a@, pbv(&p)), mget(b@, pbv(&p)), if trust_base { mget(base@, pbv(&p)) } else { None })
+            &&& act != Action::Noop
+        }),
+        forall|i: int, j: int| #![trigger out@[i], out@[j]] 0 <= i < j < out@.len() ==> out@[i].0 != out@[j].0,
+{ unimplemented!() }
+// R5 shims for closure-taking std calls in run_bisync
+#[verifier::external_body]
+pub fn base_of(loaded: &Option<Archive>) -> (r: FpMap)     // loaded.as_ref().map_or_else(FpMap::new, |z| z.entries.clone())
+    ensures loaded is Some ==> r@ == loaded->Some_0.entries@, loaded is None ==> r@ == Map::<PathBuf, Fingerprint>::empty()
+{ unimplemented!() }
+#[verifier::external_body]
+pub fn arc_or_fresh(loaded: Option<Archive>, pair: &String, host: &String) -> (r: Archive)   // loaded.unwrap_or_else(|| Archive::fresh(pair.clone(), host.clone()))
+    ensures loaded is Some ==> r == loaded->Some_0, loaded is None ==> r.format_version == 1 && r.root_pair_hash@ == pair@ && r.epoch == 0,
+{ unimplemented!() }
+#[verifier::external_body]
+pub fn count_conflicts(plan: &Vec<(PathBuf, Action)>) -> (r: usize) { unimplemented!() }     // diagnostics only
+#[verifier::external_body]
+pub fn string_into_verr(s: String) -> (r: VErr) { unimplemented!() }
+
+// is the file at the archive path a record this pair may trust? (C07)
+pub open spec fn trusted_archive(w: World, apath: PathV, pair: Seq<char>) -> bool {
+    w.files.contains_key(apath) && parse_archive(w.files[apath].bytes) is Some
+        && parse_archive(w.files[apath].bytes)->Some_0.format_version == 1
+        && parse_archive(w.files[apath].bytes)->Some_0.root_pair_hash@ == pair
+}
+pub open spec fn archive_names(apath: PathV) -> Set<PathV> { set![apath, apath + ATMP(), apath + BAK()] }
+// a conflict-copy name created by some BothChanged entry of the plan
+pub open spec fn is_conflict_name(plan: Seq<(PathBuf, Action)>, upto: int, am: Map<PathBuf, Fingerprint>, bm: Map<PathBuf, Fingerprint>, host: Seq<char>, p: PathV) -> bool {
+    exists|j: int| 0 <= j < upto && (#[trigger] plan[j]).1 == Action::Conflict(ConflictKind::BothChanged) && p == ln_of(am, bm, pbv(&plan[j].0), host)
+}
+pub open spec fn conflict_shaped(p: PathV) -> bool { exists|rel: PathV, host: Seq<char>, f: Fingerprint| p == #[trigger] conflict_name(rel, host, f) }
+pub open spec fn on_a_side(w0: World, ra: PathV, rb: PathV, p: PathV) -> bool { w0.files.contains_key(joinv(ra, p)) || w0.files.contains_key(joinv(rb, p)) }
+// C06 / H6: a record names only paths that exist on a side when the run starts, or conflict-copy names
+pub open spec fn record_ok(w0: World, ra: PathV, rb: PathV, entries: Map<PathBuf, Fingerprint>) -> bool {
+    forall|p: PathV| (#[trigger] mget(entries, p)) is Some ==> on_a_side(w0, ra, rb, p) || conflict_shaped(p)
+}
+pub proof fn lemma_untrusted_never_deletes(a: Option<Fingerprint>, b: Option<Fingerprint>)
+    ensures table(a, b, None) != Action::DeleteA, table(a, b, None) != Action::DeleteB
+{ }
+
+//@extract file=src/bin/copia/bidir.rs fn=run_bisync
+//@sig /Box<dyn std::error::Error>/ => VErr
+//@ret res
+//@param+
+    Tracked(w): Tracked<&mut World>
+//@requires
+    roots_disjoint(pv(root_a), pv(root_b)),
+    // the archive lives outside both trees and is not itself a staging name
+    forall|x: PathV| !archive_names(archive_pathv(pair_id(pv(root_a), pv(root_b)))).contains(#[trigger] joinv(pv(root_a), x)),
+    forall|x: PathV| !archive_names(archive_pathv(pair_id(pv(root_a), pv(root_b)))).contains(#[trigger] joinv(pv(root_b), x)),
+    !is_staging(archive_pathv(pair_id(pv(root_a), pv(root_b)))),
+    // domain (listed): the epoch counter of a trusted archive is below u64::MAX
+    trusted_archive(*old(w), archive_pathv(pair_id(pv(root_a), pv(root_b))), pair_id(pv(root_a), pv(root_b)))
+        ==> parse_archive(old(w).files[archive_pathv(pair_id(pv(root_a), pv(root_b)))].bytes)->Some_0.epoch < u64::MAX,
+//@ensures
+    final(w).reliable == old(w).reliable, log_extends(final(w).log, old(w).log),
+    // C15: a dry run changes nothing at all
+    opts.dry_run ==> final(w).files == old(w).files && final(w).log == old(w).log,
+    // C07: without a trusted archive for THIS pair at the archive path, nothing is ever unlinked
+    !trusted_archive(*old(w), archive_pathv(pair_id(pv(root_a), pv(root_b))), pair_id(pv(root_a), pv(root_b)))
+        ==> no_unlink_since(final(w).log, old(w).log.len() as int),
+    // C08: the record never runs ahead of the data: once the archive has been renamed into place, no further
+    // rename into either tree happens (and data renames only publish flushed files: vfs_rename's precondition)
+    forall|i: int, j: int| old(w).log.len() <= i < j < final(w).log.len()
+        && (#[trigger] final(w).log[i]) is Rename && final(w).log[i]->Rename_1 == archive_pathv(pair_id(pv(root_a), pv(root_b)))
+        && (#[trigger] final(w).log[j]) is Rename
+        ==> !(under(pv(root_a), final(w).log[j]->Rename_1) || under(pv(root_b), final(w).log[j]->Rename_1)),
+    // ... and the live record changes only by rename: whatever happens it is the old bytes, absent, or a complete new record
+    // C06 / H6: the new record names only paths that exist on a side (as scanned) or conflict-copies made by this run
+    (!opts.dry_run && final(w).files.contains_key(archive_pathv(pair_id(pv(root_a), pv(root_b))))
+        && (old(w).files.contains_key(archive_pathv(pair_id(pv(root_a), pv(root_b)))) ==>
+            final(w).files[archive_pathv(pair_id(pv(root_a), pv(root_b)))].bytes != old(w).files[archive_pathv(pair_id(pv(root_a), pv(root_b)))].bytes))
+        ==> parse_archive(final(w).files[archive_pathv(pair_id(pv(root_a), pv(root_b)))].bytes) is Some
+            && record_ok(*old(w), pv(root_a), pv(root_b), parse_archive(final(w).files[archive_pathv(pair_id(pv(root_a), pv(root_b)))].bytes)->Some_0.entries@),
+//@replace /discover_local_fingerprints\(root_a\)/ => discover_local_fingerprints(root_a, Tracked(&*w))
+//@replace /discover_local_fingerprints\(root_b\)/ => discover_local_fingerprints(root_b, Tracked(&*w))
+//@replace /Archive::load\(&apath, &pair\)/ => Archive::load(&apath, &pair, Tracked(&*w))
+//@replace /(?s)loaded\s*\.as_ref\(\)\s*\.map_or_else\(FpMap::new, \|z\| z\.entries\.clone\(\)\)/ => base_of(&loaded)
+//@replace /(?s)plan\s*\.iter\(\)\s*\.filter\(\|\(_, act\)\| matches!\(act, Action::Conflict\(_\)\)\)\s*\.count\(\)/ => count_conflicts(&plan)
+//@replace /loaded\.unwrap_or_else\(\|\| Archive::fresh\(pair\.clone\(\), host\.clone\(\)\)\)/ => arc_or_fresh(loaded, &pair, &host)
+//@replace /arc\.save\(&apath\)/ => arc.save(&apath, Tracked(w))
+//@replace /(?s)apply\(\s*root_a,\s*root_b,\s*path,\s*\*act,\s*&a,\s*&b,\s*&host,\s*&mut common,\s*&mut conflict_paths,\s*\)/ => apply(root_a, root_b, path, *act, &a, &b, &host, &mut common, &mut conflict_paths, Tracked(w))
+//@replace /(?s)Err\(format!\(\s*"\{\} path\(s\) had conflicts \(both versions preserved\)",\s*conflict_paths\.len\(\)\s*\)\s*\.into\(\)\)/ => Err(string_into_verr(vfmt()))
+//@at entry
+    broadcast use asp_path, asp_pathbuf, asp_pathbuf_val, asp_str, asp_string, ax_pathbuf_keys, ax_contains_borrowed, ax_maps_borrowed, ax_removed_borrowed;
+    let ghost w0 = *w;
+    let ghost apv = archive_pathv(pair_id(pv(root_a), pv(root_b)));
+    let ghost prv = pair_id(pv(root_a), pv(root_b));
+    proof { lemma_archive_names(apv); }
+//@loop /in &plan/ invariant
+            *w == w0, w0 == *old(w),
+//@at before /let host = host_id\(\);/
+    proof {
+        assert(pbv(&apath) == apv && pair@ == prv);
+        assert(loaded is Some ==> trusted_archive(w0, apv, prv));
+        assert forall|i: int| 0 <= i < plan@.len() && !trust_base implies (#[trigger] plan@[i]).1 != Action::DeleteA && plan@[i].1 != Action::DeleteB by {
+            lemma_untrusted_never_deletes(mget(a@, pbv(&plan@[i].0)), mget(b@, pbv(&plan@[i].0)));
+        }
+    }
+//@replace? /let mut common = FpMap::new\(\);/ => let mut common = fpmap_new();
+//@replace? /for \(p, fp\) in &base(?= \{)/ => for (p, fp) in bit: base.iter()
+//@loop? /in &base/ invariant
+            w0 == *old(w), *w == w0, scanned_all(w0, pv(root_a), a@), scanned_all(w0, pv(root_b), b@),
+            record_ok(w0, pv(root_a), pv(root_b), common@),
+//@at? loop /in &base/ entry
+        broadcast use asp_path, asp_pathbuf, asp_pathbuf_val, asp_str, asp_string, ax_pathbuf_keys, ax_contains_borrowed, ax_maps_borrowed, ax_contains_borrowed_pb, ax_maps_borrowed_pb;
+        let ghost cb = common@;
+//@at? loop /in &base/ end
+        proof {
+            assert forall|q: PathV| (#[trigger] mget(common@, q)) is Some implies on_a_side(w0, pv(root_a), pv(root_b), q) || conflict_shaped(q) by {
+                if common@ != cb {
+                    lemma_insert_view(cb, common@, pbv(p), *fp);
+                    if q == pbv(p) {
+                        assert(scanned_at(w0, pv(root_a), a@, q) && scanned_at(w0, pv(root_b), b@, q));
+                    }
+                }
+            }
+        }
+//@loop /for \(path, act\) in &plan/ iter it
+//@loop /for \(path, act\) in &plan/ invariant
+            it.seq().len() == plan@.len(), forall|i: int| 0 <= i < it.seq().len() ==> *(#[trigger] it.seq()[i]) == plan@[i],
+            w0 == *old(w), !opts.dry_run, (loaded is Some) == trust_base, loaded is Some ==> trusted_archive(w0, apv, pair_id(pv(root_a), pv(root_b))),
+            w.reliable == w0.reliable, log_extends(w.log, w0.log),
+            roots_disjoint(pv(root_a), pv(root_b)),
+            apv == archive_pathv(pair_id(pv(root_a), pv(root_b))), !is_staging(apv),
+            forall|x: PathV| !archive_names(apv).contains(#[trigger] joinv(pv(root_a), x)),
+            forall|x: PathV| !archive_names(apv).contains(#[trigger] joinv(pv(root_b), x)),
+            scanned_all(w0, pv(root_a), a@), scanned_all(w0, pv(root_b), b@),
+            forall|i: int| 0 <= i < plan@.len() && !trust_base ==> (#[trigger] plan@[i]).1 != Action::DeleteA && plan@[i].1 != Action::DeleteB,
+            forall|i: int| 0 <= i < plan@.len() ==> mget(a@, pbv(&(#[trigger] plan@[i]).0)) is Some || mget(b@, pbv(&plan@[i].0)) is Some,
+            // C07: an unlink only ever happens under a trusted base
+            forall|i: int| w0.log.len() <= i < w.log.len() && (#[trigger] w.log[i]) is Unlink ==> trust_base,
+            // C08: every rename so far landed inside a tree
+            forall|i: int| w0.log.len() <= i < w.log.len() && (#[trigger] w.log[i]) is Rename ==> under(pv(root_a), w.log[i]->Rename_1) || under(pv(root_b), w.log[i]->Rename_1),
+            // the archive file is untouched while data is applied
+            w.files.dom().contains(apv) == w0.files.dom().contains(apv), w.files.dom().contains(apv) ==> w.files[apv].bytes == w0.files[apv].bytes,
+            // C06 / H6: the record-to-be names only paths present on a side or conflict-copies made so far
+            record_ok(w0, pv(root_a), pv(root_b), common@),
+            host@ == host_g,
+//@at loop /for \(path, act\) in &plan/ entry
+        broadcast use asp_path, asp_pathbuf, asp_pathbuf_val, asp_str, asp_string, ax_pathbuf_keys, ax_contains_borrowed, ax_maps_borrowed, ax_removed_borrowed;
+        let ghost k = it.index() as int;
+        let ghost wk = *w;
+        let ghost ck = common@;
+        proof { assert(*path == plan@[k].0 && *act == plan@[k].1); assert(pbv(path) == pbv(&plan@[k].0)); }
+        // C02 side condition (H7): the conflict-copy names a divergent edit is about to write are free, or already hold
+        // the very bytes being preserved. Nothing in run_bisync establishes this.
+        proof { assert(conflict_names_free(*w, a@, b@, pv(root_a), pv(root_b), pbv(path), *act, host@)); }
+//@at loop /for \(path, act\) in &plan/ end
+        proof {
+            let relv = pbv(&plan@[k].0);
+            let lnk = ln_of(a@, b@, relv, host@);
+            // the archive path is none of the paths this action may touch, and is not a staging name
+            assert(!touched(plan@[k].1, pv(root_a), pv(root_b), relv, lnk).contains(apv)) by {
+                assert(archive_names(apv).contains(apv));
+                assert(!archive_names(apv).contains(joinv(pv(root_a), relv)) && !archive_names(apv).contains(joinv(pv(root_b), relv)));
+                assert(!archive_names(apv).contains(joinv(pv(root_a), lnk)) && !archive_names(apv).contains(joinv(pv(root_b), lnk)));
+            }
+            assert(w.files.dom().contains(apv) == wk.files.dom().contains(apv));
+            assert forall|p: PathV| (#[trigger] mget(common@, p)) is Some implies on_a_side(w0, pv(root_a), pv(root_b), p) || conflict_shaped(p) by {
+                if mget(ck, p) is Some {
+                } else if p == relv {
+                    assert(scanned_at(w0, pv(root_a), a@, relv) && scanned_at(w0, pv(root_b), b@, relv));
+                } else {
+                    assert(plan@[k].1 == Action::Conflict(ConflictKind::BothChanged) && p == lnk);
+                    assert(p == conflict_name(relv, host@, loser_of(a@, b@, relv)));
+                }
+            }
+        }
+//@at after loop /for \(path, act\) in &plan/
+    let ghost w_data = *w;
+//@at before /arc\.save\(&apath\)\?;/
+    proof {
+        assert(arc.entries@ == common@);
+        assert(record_ok(w0, pv(root_a), pv(root_b), arc.entries@));
+        assert(w.files.dom().contains(apv) == w0.files.dom().contains(apv));
+        assert(w.files.dom().contains(apv) ==> w.files[apv].bytes == w0.files[apv].bytes);
+        assert(pbv(&apath) == apv);
+    }
+//@at after /arc\.save\(&apath\)\?;/
+    proof {
+        assert(w.files.contains_key(apv));
+        assert(parse_archive(w.files[apv].bytes) == Some(arc));
+        assert(record_ok(w0, pv(root_a), pv(root_b), parse_archive(w.files[apv].bytes)->Some_0.entries@));
+    }
+//@at after /let host = host_id\(\);/
+    let ghost host_g = host@;
+//@loop /in &conflict_paths/ invariant
+            *w == w_save,
+//@at before /if opts\.verbose && !conflict_paths\.is_empty\(\)/
+    let ghost w_save = *w;
+//@at end
+    proof {
+        let n = w.log;
+        assert forall|i: int, j: int| w0.log.len() <= i < j < n.len() && (#[trigger] n[i]) is Rename && n[i]->Rename_1 == apv && (#[trigger] n[j]) is Rename
+            implies !(under(pv(root_a), n[j]->Rename_1) || under(pv(root_b), n[j]->Rename_1)) by {
+            // a rename onto the archive can only be one of save's effects, and so is everything after it
+            if i < w_data.log.len() {
+                assert(w_data.log[i] == n[i]);
+                assert(under(pv(root_a), apv) || under(pv(root_b), apv));
+                assert(archive_names(apv).contains(apv));
+                assert(false);
+            }
+            assert(archive_effect(n[j], apv));
+            assert(archive_names(apv).contains(apv) && archive_names(apv).contains(apv + BAK()));
+        }
+    }
 //@end
